@@ -20,7 +20,8 @@ RULE = ("sequences of registry operations (register / subscribe / subscribe_only
         "notify_subscribers / kill_resource / deregister / get_subscribers / get_subscriptions / consumer "
         "get_nowait[+task_done] on any queue object ever handed out) from the empty registry: random sequences "
         "of length <= 40 over 4 resources biased towards repeated ops, cycle-closing subscriptions and "
-        "notify-after-kill, own bounded queues (capacity 1-2) with bursts that fill them and kill/deregister while full, "
+        "notify-after-kill, caller-owned set/list objects shared between subscribe_only_to calls and mutated afterwards, "
+        "own bounded queues (capacity 1-2) with bursts that fill them and kill/deregister while full, "
         "plus exhaustive short sequences over 3 resources; every prefix is compared; "
         "a sequence is non-trivial when it creates a subscription edge and delivers or refuses something; "
         "distinct by content")
